@@ -54,7 +54,9 @@ fn digests(restricted: bool, kmax: usize) -> BTreeMap<String, String> {
         let z = zoo.iter().find(|z| z.kind == KeyKind::Ed25519).unwrap();
         // (a CA without any subject key identifier needs a hash method after import, which the crypto-less build does
         // not have: that input is compared between the two crypto builds only)
-        let mut skis: Vec<(String, Option<Vec<u8>>)> = if restricted { vec![] } else { vec![("no SKI".into(), None)] };
+        // (a CA without SKI: the crypto builds derive one; the crypto-less build cannot and may refuse the import - the comparison
+        // below lets exactly that row differ when the crypto-less build answers with an error, and only then)
+        let mut skis: Vec<(String, Option<Vec<u8>>)> = vec![("no SKI".into(), None)];
         for bits in [256u32, 384, 512] {
             let d = ossl_sha(bits, &z.spki);
             skis.push((format!("sha{} of the SPKI, 20 bytes", bits), Some(d[..20].to_vec())));
@@ -176,7 +178,7 @@ pub fn export_cmd(dir: &str) -> i32 {
     // the large RSA keys (signing cost): one automatic and one explicit-algorithm entry point, one digest; 8192 bits in the thorough tier
     let all_slow = std::env::var("VERIF_C16_SLOW").map(|v| v == "all").unwrap_or(false);
     // (the first key of each kind, and the keys chosen for their bytes or framing: _6.., _7.., _8..)
-    for z in zoo.iter().filter(|z| (z.name.contains("_1") || z.name.contains("_6") || z.name.contains("_7") || z.name.contains("_8")) && (!z.kind.is_slow() || all_slow || z.kind == KeyKind::Rsa6144)) {
+    for z in zoo.iter().filter(|z| (z.name.contains("_1") || z.name.contains("_6") || z.name.contains("_7") || z.name.contains("_8")) && (!z.kind.is_slow() || all_slow || z.kind == KeyKind::Rsa6144 || z.kind == KeyKind::Rsa3072)) {
         for e in super::c11::ENTRIES {
             if z.kind.is_slow() && !matches!(e, super::c11::Entry::TryFromSlice | super::c11::Entry::FromDerAlg) {
                 continue;
@@ -345,7 +347,8 @@ pub fn run(prop: &str, tier: &str, replay: Option<&str>) -> i32 {
                 match (a.get(k), b.get(k)) {
                     (Some(x), Some(y)) => {
                         out.digest = fnv(x.as_bytes());
-                        if x != y {
+                        let may_refuse = k == "import+reissue | no SKI" && bn == "crypto-less" && y.starts_with("ERR");
+                        if x != y && !may_refuse {
                             out.findings.push(Finding::new("BACKENDS-DISAGREE", format!("{} vs {}", an, bn), format!("{}: {} vs {}", k, x, y)));
                         }
                     }
